@@ -36,9 +36,39 @@ def in_domain(p, enc):
     return valid_password(p) and encodable(p, enc) and all(pwgen.supported_letter(c) for c in p) and len(p) <= 30 and not p.endswith('\r')
 
 
+def word(i, length):
+    """i-th lower-case word of a given length (base-26 digits, deterministic)."""
+    out = []
+    for _ in range(length):
+        out.append('abcdefghijklmnopqrstuvwxyz'[i % 26])
+        i //= 26
+    return ''.join(out)
+
+
+def large_entries(spec):
+    """Many distinct values per rules file (the files have > 1000 / > 2000 lines): spec = {'words', 'word_len', 'digits', 'structs'}."""
+    entries = []
+    for i in range(spec['words']):
+        w = word(i + 7, spec['word_len'])
+        entries.append([w if i % 3 else w.capitalize(), 1 + (i % 2)])
+    for i in range(spec['digits']):
+        entries.append(['%05d' % (i * 7 + 3), 1])
+    for i in range(spec.get('structs', 0)):
+        # many distinct base structures: digit/symbol runs of varying shape
+        shape = []
+        n = i + 1
+        while n:
+            shape.append('1' * (1 + n % 3) + '!' * (1 + (n // 3) % 2))
+            n //= 6
+        entries.append([''.join(shape)[:28], 1])
+    return entries
+
+
 def prop(case, rec):
     from .. import guesser
     enc = case['encoding']
+    if 'large' in case:
+        case = dict(case, entries=large_entries(case['large']))
     pws = []
     for p, c in case['entries']:
         pws += [p] * c
@@ -85,7 +115,8 @@ def prop(case, rec):
         cls.append('context')
     if len(supported) != len(r.sections):
         cls.append('has_unsupported')
-    rec.case({'entries': case['entries'][:6], 'encoding': enc, 'coverage': case['coverage'], 'guesses': nguess}, interesting, cls, key=case)
+    rec.case({'entries': case['entries'][:6], 'n_entries': len(case['entries']), 'encoding': enc, 'coverage': case['coverage'], 'guesses': nguess}, interesting or 'large' in case,
+             cls + (['large_list_over_1000_values_per_file'] if 'large' in case else []), key=case.get('large') or case)
     for pw, sec in supported:
         if pw not in emitted:
             raise Violation('not_reproduced', f'training password {pw!r} (segmented as {sec}) is never emitted by the trained grammar '
@@ -135,6 +166,21 @@ def run_main(rec, seed, shard, nshards, tier):
     core.hyp_run(rec, prop, cases(), n, seed)
 
 
+@st.composite
+def large_cases(draw):
+    spec = {'words': draw(st.sampled_from([0, 990, 1001, 1100, 2001, 2100])), 'word_len': draw(st.sampled_from([5, 7])),
+            'digits': draw(st.sampled_from([0, 1000, 1001, 1500, 2003])), 'structs': draw(st.sampled_from([0, 0, 1100]))}
+    if not (spec['words'] or spec['digits'] or spec['structs']):
+        spec['words'] = 1001
+    return {'large': spec, 'encoding': 'utf-8', 'coverage': draw(st.sampled_from([0.6, 1])), 'ngram': 3, 'alphabet_size': 100}
+
+
+def run_large(rec, seed, shard, nshards, tier):
+    n = {'quick': 2, 'thorough': 12}[tier]
+    core.hyp_run(rec, prop, large_cases(), n, seed, shrink=False)
+
+
 PARTS = [
     Part('train_then_guess', run_main, prop, {'quick': 8, 'thorough': 16}),
+    Part('large_lists', run_large, prop, {'quick': 4, 'thorough': 8}),
 ]
